@@ -51,6 +51,14 @@ fixed("C16","e80413a","pin:negative_asm_size","asm(\"NOP\", 1 -128): negative si
 fixed("C16","d0a666b","pin:absurd_subscript","'sc[2147483647]' on a superchip array overflowed the port offset addition")
 fixed("C16","3043510","opts:hostile_define","-D with a non-identifier name panicked in Regex::new; -D A=A+1 / -D \"\" looped forever")
 
+fixed("C14","72c107c","C14:append_code_protected","inlining (append_code) dropped the 'protected' mark of copied instructions: an inlined load()/strobe()/store() lost its access at -O1")
+fixed("C14","30096ca","C14:long_branch_gt_protected","the long-branch repair of a '>' test emitted an unprotected BEQ over the inserted JMP; after inlining the optimiser paired it away")
+fixed("C17","1e41d5c","pin:superchip_short_shift_is_rmw","'s <<= 1' on a short in split-port cartridge RAM used ASL/ROL on memory (read-modify-write on the port pair)")
+fixed("C01","4ee826f","pin:or_zero_before_push","'x | 0' / 'x + 0' shortcut returned the left operand after A had already been pushed: unbalanced PHA")
+fixed("C18","f02fd32","pin:load_then_flag_test","load() / store() left stale flag knowledge: 'l = a; load(*P); if (l == 0)' branched on the flags of *P")
+fixed("C18","d6d7fdd","pin:asm_then_flag_test","asm() left stale flag knowledge: 'l = a; asm(\"LDA #1\", 2); if (l == 0)' tested the flags of the inline code")
+fixed("C15","dd8ce8b","pin:nested_if_else_chain","the grammar gave an if any number of else clauses and kept the first: 'if (a) if (b) S1 else S2 else S3' dropped S3")
+
 # ---------------- recorded, not repaired (each has a pinned witness in harness/src/pins.rs and a
 # generator rule that keeps the random pools out of the family)
 C01=[
@@ -83,6 +91,11 @@ C01=[
 ]
 for n,w in C01: known("C01","pin:"+n,w)
 
+known("C01","pin:wide_dest_shift","'s = s << 5' on a short shifts the low byte and derives the high byte from the shifted low byte ('s <<= 5' is correct)")
+known("C15","pin:wide_mirror","16-bit 't >= s' versus 's <= t' differ (C01 family wide_compare_le_gt)")
+known("C15","pin:mirror_register_right","'Y < a[Y]' versus 'a[Y] > Y' differ (C01 family cmp_indexed_vs_register)")
+known("C15","pin:wide_shift_assign","'s <<= 5' versus 's = s << 5' on a short differ (C01 family wide_dest_shift)")
+known("C17","pin:pointer_into_split_port_ram","a char pointer set to a superchip / bank-RAM array holds the read-port address: a store through it writes the read port")
 known("C16","pin:deep_blocks_5000","5000 nested blocks (also 'if' chains and parentheses at similar depths) overflow pest's recursive descent on the 8 MiB stack: the process aborts; depth 512 is fine")
 known("C08","pin:paste_keeps_argument_blanks","'CAT(g, 2)' with '#define CAT(a,b) a##b' yields 'g 2': arguments keep their surrounding blanks, so ## does not form one token")
 known("C08","pin:macro_argument_nesting_limit","a macro argument that (after expansion) nests more than four parenthesis levels no longer matches: the macro call is silently left unexpanded")
